@@ -70,6 +70,7 @@ def read_v2(eng, st):
         if r[3][0] == 'text' and r[4][0] == 'text' and all(b.__class__ is int for b in r[3][1] + r[4][1]):
             path = bytes(r[3][1]); fn = bytes(r[4][1])
             if path.rsplit(b'/', 1)[-1] != fn: rd.fail('Track %d: filename %r is not the file name of path %r' % (tid, fn, path))
+    fk_check(eng, st, rd)
     st.log.append(('reach', 'raw-tables-read'))
 
 def read_v1(eng, st):
@@ -111,7 +112,33 @@ def read_v1(eng, st):
         if t not in tracks: rd.fail('CrateTrackList names track %d which does not exist' % t)
         if (c, t) in seen: rd.fail('crate %d lists track %d twice' % (c, t))
         seen.add((c, t))
+    fk_check(eng, st, rd)
     st.log.append(('reach', 'raw-tables-read'))
+
+def fk_check(eng, st, rd):
+    """what `PRAGMA foreign_key_check` computes, on the modelled rows: every row whose foreign-key columns are all non-NULL names an existing parent row
+    (the declared FOREIGN KEY clauses are parsed from /repo's DDL; the library never switches enforcement on, so nothing else guarantees this)"""
+    q = st.env.get('sq'); db = getattr(q, 'rel', None) if q is not None else None
+    if db is None: return
+    for tname, tdef in db.schema.tables.items():
+        for fc, rt, rc, action in tdef.get('fks', []):
+            parent = db.rows.get(rt.lower())
+            if parent is None: continue
+            pdef = db.schema.tables[rt.lower()]
+            rcols = [c.lower() for c in rc] if rc and rc[0] is not None else [pdef['pk']] if isinstance(pdef['pk'], str) else list(pdef['pk'] or ())
+            keys = set()
+            for prow in parent.values():
+                k = tuple(prow.get(c, ('null',)) for c in rcols)
+                if all(v[0] == 'int' and v[1].__class__ is int for v in k): keys.add(tuple(v[1] for v in k))
+                elif any(v[0] != 'null' for v in k): keys.add(None)      # a parent key the reader cannot compare (text / symbolic): be conservative below
+            for rid, row in db.rows.get(tname, {}).items():
+                k = tuple(row.get(c.lower(), ('null',)) for c in fc)
+                if any(v[0] == 'null' for v in k): continue
+                if not all(v[0] == 'int' and v[1].__class__ is int for v in k):
+                    if None in keys or not keys: continue
+                    raise E.Inconclusive('reader', 'symbolic or non-integer foreign key in %s' % tname)
+                if tuple(v[1] for v in k) not in keys and None not in keys:
+                    rd.fail('foreign key violation (what PRAGMA foreign_key_check reports): %s row %r names %s%r which does not exist' % (tdef['name'], rid, rt, tuple(E.to_signed(v[1], 64) for v in k)))
 
 def install(eng, gen):
     eng.hooks = dict(getattr(eng, 'hooks', {}))
